@@ -57,7 +57,8 @@ def run(ctx):
     if Sv.op == "agg":
         x = Sv.args[1 + fidx(ctx, SS, "x")]
         y = Sv.args[1 + fidx(ctx, SS, "y")]
-        ctx.add("C16.R1", root + "#x-is-the-draw", bool(Q.rngs(Q.leaves(x))) and not Q.params(Q.leaves(x)),
+        from .common import always_random
+        ctx.add("C16.R1", root + "#x-is-the-draw", always_random(x) and not Q.params(Q.leaves(x)),
                 "the evaluation point must be the random draw and nothing else; depends on %s" % sorted(Q.params(Q.leaves(x))), at)
         ctx.add("C16.R1", root + "#y-from-polynomials", within(Q.params(Q.leaves(y))),
                 "the share values may depend only on the polynomials and the point", at)
